@@ -168,6 +168,82 @@ class C01(EvalProp):
         r = g.get('R0', '')
         return r.startswith('ok:') and (len(values_of(r)) >= 2 or c.meta.get('nsteps', 0) >= 3)
 
+    def extra(self, ctx, res, g, budget_scale):
+        """paths of name / index / wildcard steps whose text is Coq's chain_path (C01_chain_retrieval): the driver confirms
+        the text, the expected values come from walking the document in the harness (no syntax tree involved)"""
+        r = g.r
+        cases, want = [], {}
+        for i in range(ctx.n(600, 6000) * budget_scale):
+            doc = g.doc(3, False, 0)
+            cur, text, spec = [doc], '$', []
+            for _ in range(r.randint(1, 4)):
+                conts = [v for v in cur if v[0] in 'ao']
+                k = r.random()
+                if k < 0.3 or not conts:
+                    dotw = r.random() < 0.5
+                    text += '.*' if dotw else '[*]'
+                    spec.append((2,) if dotw else (3,))
+                    nxt = []
+                    for v in cur:
+                        if v[0] == 'o':
+                            nxt += [x for _, x in sorted(v[1], key=lambda kv: kv[0])]
+                        elif v[0] == 'a':
+                            nxt += list(v[1])
+                    cur = nxt
+                    continue
+                c0 = r.choice(conts)
+                if c0[0] == 'a':
+                    n_ = r.randint(0, len(c0[1]) + 1)
+                    digits = ('0' * r.choice([0, 0, 1])) + str(n_)
+                    text += '[' + digits + ']'
+                    spec.append((1, [ord(ch) for ch in digits]))
+                    cur = [v[1][n_] for v in cur if v[0] == 'a' and n_ < len(v[1])]
+                else:
+                    kb = r.choice(c0[1])[0] if c0[1] and r.random() < 0.85 else b'zz9'
+                    key = kb.decode('utf-8')
+                    dot = gens.esc_dot(kb)
+                    style = r.choice("'\"." if dot is not None else "'\"")
+                    if style == '.':
+                        text += '.' + dot.decode('utf-8')
+                        spec.append((0, [ord(ch) for ch in key]))
+                    else:
+                        body = ''.join('\\' + ch if ch in (style, '\\') else ('\\u%04x' % ord(ch) if ord(ch) < 0x20 else ch) for ch in key)
+                        text += '[' + style + body + style + ']'
+                        spec.append((ord(style), [ord(ch) for ch in key]))
+                    nxt = []
+                    for v in cur:
+                        if v[0] == 'o':
+                            hit = [x for kk, x in v[1] if kk == kb]
+                            nxt += hit[-1:]
+                    cur = nxt
+            c = Case('ch%d' % i, text.encode('utf-8'), [doc], meta={'nsteps': len(spec), 'family': 'coq-chain-path'})
+            c.keyc = [(q, k_) if len(sp_) == 2 else (sp_[0], []) for sp_ in spec for (q, k_) in [(sp_ + ([],))[:2]]]
+            want[c.id] = 'ok:[' + ','.join(core.doc_render(v) for v in cur) + ']' if cur else 'fail'
+            cases.append(c)
+        go, mo = both_sides(cases)
+        for c, g_, m in zip(cases, go, mo):
+            res.evaluations += 1
+            hp = harness_problem(g_) or harness_problem(m)
+            if hp:
+                res.violation('broken-correspondence', 'harness:' + hp[:60], hp, c)
+                continue
+            if m.get('KP') != '1':
+                res.violation('broken-correspondence', 'harness:chain_path', 'the path sent is not Coq chain_path of its steps', c)
+                continue
+            a = g_.get('R0', 'P:' + g_.get('P', ''))
+            fa = a if a.startswith('ok:') else ('fail' if cls_of(a) in ('mne', 'tum') else a)
+            if fa != want[c.id]:
+                res.violation('concrete', sig_of(c, 'chain-values'), 'the values of %r are not those reached by walking the document' % (c.path,), c,
+                              expected=want[c.id], observed=a)
+            b = m.get('R0', 'P:' + m.get('P', ''))
+            fb = b if b.startswith('ok:') else ('fail' if cls_of(b) in ('mne', 'tum') else b)
+            if fa != fb:
+                res.disagreements_checked += 1
+                res.violation('concrete', sig_of(c, 'chain-vs-model'), 'values of %r differ from the model' % (c.path,), c, expected=b, observed=a)
+            if fa.startswith('ok:') and len(values_of(fa)) >= 2:
+                res.nontrivial.add((c.path, core.doc_render(c.docs[0])))
+            res.dist['coq-chain-path'] += 1
+
 
 @register
 class C03(EvalProp):
